@@ -25,7 +25,111 @@ pub struct WriterCase {
     pub usize_stride: u8,
 }
 
+/// Either a framework produced by a history, or a LARGE extension / framework (thousands of labels,
+/// output beyond any plausible internal buffer size).
+#[derive(Clone, Debug, Serialize, Deserialize)]
+pub enum WriterAny {
+    Hist(WriterCase),
+    Big { n: u32, style: u8, stride: u16, take_every: u8, attacks: Vec<(u16, u16)> },
+}
+
 pub struct Writers;
+
+fn big_label(style: u8, i: usize) -> String {
+    match style % 4 {
+        0 => format!("a{}", i),
+        1 => format!("_{}", i),
+        2 => format!("Argument_with_a_rather_long_name_{}_x", i),
+        _ => format!("n{}_{}", i % 7, i),
+    }
+}
+
+fn run_big(n: u32, style: u8, stride: u16, take_every: u8, attacks: &[(u16, u16)], rec: &mut Rec) -> CheckResult {
+    let n = n as usize;
+    rec.eval();
+    // ---- extensions
+    let labels: Vec<String> = (0..n).map(|i| big_label(style, i)).collect();
+    let set = ArgumentSet::new_with_labels(&labels);
+    let step = take_every.max(1) as usize;
+    let sel: Vec<usize> = (0..n).filter(|i| i % step == 0).collect();
+    let args: Vec<&Argument<String>> = sel.iter().map(|i| set.get_argument(&labels[*i]).unwrap()).collect();
+    let mut b: Vec<u8> = vec![];
+    ResponseWriter::<String>::write_single_extension(&AspartixWriter, &mut b, &args).map_err(|e| Failure::new("C14/big/aspartix-extension/error", e.to_string()))?;
+    let want = format!("[{}]\n", sel.iter().map(|i| labels[*i].clone()).collect::<Vec<_>>().join(","));
+    if b != want.as_bytes() {
+        let pos = b.iter().zip(want.as_bytes()).position(|(x, y)| x != y).unwrap_or(b.len().min(want.len()));
+        return Err(Failure::new(
+            "C14/big/aspartix-extension/bytes-differ",
+            format!("{} labels, {} bytes expected, {} written; first difference at byte {}: ...{:?}...", sel.len(), want.len(), b.len(), pos, String::from_utf8_lossy(&b[pos.saturating_sub(20)..(pos + 20).min(b.len())])),
+        ));
+    }
+    let ulab = |i: usize| i * stride.max(1) as usize + 1;
+    let ulabels: Vec<usize> = (0..n).map(ulab).collect();
+    let uset = ArgumentSet::new_with_labels(&ulabels);
+    let uargs: Vec<&Argument<usize>> = sel.iter().map(|i| uset.get_argument(&ulab(*i)).unwrap()).collect();
+    let mut b: Vec<u8> = vec![];
+    ResponseWriter::<usize>::write_single_extension(&Iccma23Writer, &mut b, &uargs).map_err(|e| Failure::new("C14/big/iccma23-extension/error", e.to_string()))?;
+    let mut want = String::from("w");
+    for i in &sel {
+        want.push(' ');
+        want.push_str(&ulab(*i).to_string());
+    }
+    want.push('\n');
+    if b != want.as_bytes() {
+        let pos = b.iter().zip(want.as_bytes()).position(|(x, y)| x != y).unwrap_or(b.len().min(want.len()));
+        return Err(Failure::new(
+            "C14/big/iccma23-extension/bytes-differ",
+            format!("{} labels, {} bytes expected, {} written; first difference at byte {}", sel.len(), want.len(), b.len(), pos),
+        ));
+    }
+    // ---- a big framework through write_framework and back
+    let mut af: AAFramework<String> = AAFramework::new_with_argument_set(ArgumentSet::new_with_labels(&labels));
+    let mut model: BTreeSet<(usize, usize)> = BTreeSet::new();
+    for (k, (x, y)) in attacks.iter().enumerate() {
+        if n == 0 {
+            break;
+        }
+        // spread the generated pairs over the whole framework
+        let a = (idx(*x, n) + k * 37) % n;
+        let c = (idx(*y, n) + k * 101) % n;
+        af.new_attack(&labels[a], &labels[c]).unwrap();
+        model.insert((a, c));
+    }
+    // remove every 5th argument so that tombstones exist
+    let mut live: Vec<usize> = vec![];
+    for i in 0..n {
+        if i % 5 == 3 {
+            af.remove_argument(&labels[i]).unwrap();
+            model.retain(|(a, c)| *a != i && *c != i);
+        } else {
+            live.push(i);
+        }
+    }
+    let mut buf: Vec<u8> = vec![];
+    AspartixWriter.write_framework(&af, &mut buf).map_err(|e| Failure::new("C14/big/write_framework/error", e.to_string()))?;
+    let text = String::from_utf8(buf).map_err(|_| Failure::new("C14/big/write_framework/not-utf8", ""))?;
+    let (pl, pa) = parse_written(&text).map_err(|e| Failure::new("C14/big/write_framework/unexpected-text", e))?;
+    let want_labels: Vec<String> = live.iter().map(|i| labels[*i].clone()).collect();
+    if pl != want_labels {
+        return Err(Failure::new("C14/big/write_framework/arguments-differ-from-model", format!("{} written, {} expected", pl.len(), want_labels.len())));
+    }
+    let pas: BTreeSet<(String, String)> = pa.iter().cloned().collect();
+    let want_atts: BTreeSet<(String, String)> = model.iter().map(|(a, c)| (labels[*a].clone(), labels[*c].clone())).collect();
+    if pas != want_atts || pa.len() != want_atts.len() {
+        return Err(Failure::new("C14/big/write_framework/attacks-differ-from-model", format!("{} written ({} distinct), {} expected", pa.len(), pas.len(), want_atts.len())));
+    }
+    let back = AspartixReader::default().read(&mut text.as_bytes()).map_err(|e| Failure::new("C14/big/read-back/rejected", e.to_string()))?;
+    let bl: Vec<String> = back.argument_set().iter().map(|a| a.label().clone()).collect();
+    let ba: BTreeSet<(String, String)> = back.iter_attacks().map(|t| (t.attacker().label().clone(), t.attacked().label().clone())).collect();
+    if bl != want_labels || ba != want_atts {
+        return Err(Failure::new("C14/big/read-back/differs", format!("{} arguments {} attacks read, {} / {} expected", bl.len(), ba.len(), want_labels.len(), want_atts.len())));
+    }
+    rec.class(&format!("big-extension-bytes-{}", if want.len() > 65536 { ">64KiB" } else if want.len() > 4096 { ">4KiB" } else { "small" }));
+    if rec.nontrivial(&(n, style, stride, take_every, attacks.len())) {
+        rec.sample(|| json!({"big": {"labels": n, "extension_members": sel.len(), "aspartix_extension_bytes": want.len(), "framework_text_bytes": text.len(), "attacks": want_atts.len()}}));
+    }
+    Ok(())
+}
 
 /// Independent tokenizer for the Aspartix framework text the writer is specified to produce.
 fn parse_written(text: &str) -> Result<(Vec<String>, Vec<(String, String)>), String> {
@@ -53,17 +157,35 @@ fn parse_written(text: &str) -> Result<(Vec<String>, Vec<(String, String)>), Str
 }
 
 impl Prop for Writers {
-    type Case = WriterCase;
+    type Case = WriterAny;
     fn id(&self) -> &'static str {
         "C14"
     }
     fn rule(&self) -> String {
-        "A framework over identifier labels (four identifier styles incl. leading underscore, names 'arg'/'att') is produced by an update history of 0-60 (quick) / 0-200 (thorough) operations (so removed arguments and attacks leave tombstones), written with AspartixWriter::write_framework, checked byte-wise by an independent tokenizer against the set model (labels in creation order, attack set, nothing else) and read back with AspartixReader (same labels in the same order, same attacks). A generated ordered selection of its arguments (possibly empty) is written by AspartixWriter and, over usize labels with a generated stride, by Iccma23Writer; the bytes must be exactly '[' labels joined by ',' ']\\n' resp. 'w' (' ' label)* '\\n'; statuses exactly YES\\n / NO\\n; write_no_extension exactly NO\\n. Non-trivial: the history removed >=1 argument and >=1 attack and the extension has >=2 members; distinct = case.".into()
+        "A framework over identifier labels (four identifier styles incl. leading underscore, names 'arg'/'att') is produced by an update history of 0-60 (quick) / 0-200 (thorough) operations (so removed arguments and attacks leave tombstones), written with AspartixWriter::write_framework, checked byte-wise by an independent tokenizer against the set model (labels in creation order, attack set, nothing else) and read back with AspartixReader (same labels in the same order, same attacks). A generated ordered selection of its arguments (possibly empty) is written by AspartixWriter and, over usize labels with a generated stride, by Iccma23Writer; the bytes must be exactly '[' labels joined by ',' ']\\n' resp. 'w' (' ' label)* '\\n'; statuses exactly YES\\n / NO\\n; write_no_extension exactly NO\\n. One case in 4000 is LARGE: 0-30000 (thorough: 120000) labels of four styles, every 1st-3rd of them written as an extension by both writers (output from a few bytes to over 1 MiB, compared byte for byte), and a framework of that many arguments with up to 400 attacks spread over it and every fifth argument removed, written, tokenized, and read back. Non-trivial: the history removed >=1 argument and >=1 attack and the extension has >=2 members; distinct = case.".into()
     }
     fn assumptions(&self) -> Vec<String> {
         vec!["labels are valid Aspartix identifiers, as the property states".into()]
     }
-    fn strategy(&self, tier: Tier) -> BoxedStrategy<WriterCase> {
+    fn strategy(&self, tier: Tier) -> BoxedStrategy<WriterAny> {
+        let nbig = tier.pick(30_000u32, 120_000u32);
+        let big = (prop_oneof![3 => 0u32..200, 2 => 200u32..5_000, 1 => 5_000u32..nbig], 0u8..4, 1u16..2000, 1u8..4, vec((any::<u16>(), any::<u16>()), 0..=400))
+            .prop_map(|(n, style, stride, take_every, attacks)| WriterAny::Big { n, style, stride, take_every, attacks });
+        prop_oneof![4000 => self.hist_strategy(tier).prop_map(WriterAny::Hist), 1 => big].boxed()
+    }
+    fn n_cases(&self, tier: Tier) -> u32 {
+        tier.pick(2_000_000, 20_000_000)
+    }
+    fn run(&self, case: &WriterAny, rec: &mut Rec) -> CheckResult {
+        match case {
+            WriterAny::Hist(c) => self.run_hist(c, rec),
+            WriterAny::Big { n, style, stride, take_every, attacks } => run_big(*n, *style, *stride, *take_every, attacks, rec),
+        }
+    }
+}
+
+impl Writers {
+    fn hist_strategy(&self, tier: Tier) -> BoxedStrategy<WriterCase> {
         let maxlen = tier.pick(60usize, 200usize);
         (3u8..=8, 0u8..4, 1u8..5)
             .prop_flat_map(move |(universe, style, usize_stride)| {
@@ -73,10 +195,7 @@ impl Prop for Writers {
             })
             .boxed()
     }
-    fn n_cases(&self, tier: Tier) -> u32 {
-        tier.pick(2_000_000, 20_000_000)
-    }
-    fn run(&self, case: &WriterCase, rec: &mut Rec) -> CheckResult {
+    fn run_hist(&self, case: &WriterCase, rec: &mut Rec) -> CheckResult {
         let lab = |l: u8| apx_label(case.style, l as usize);
         // model: creation-ordered live labels and attack set
         let mut order: Vec<u8> = vec![];
